@@ -33,6 +33,7 @@ RULE = (
     "options); distinct = distinct case JSON; evaluations = API observations compared with the model"
 )
 RULE += " " + 'Added after the seeding rounds: literal backslashes in file and folder names; near-miss names that only case folding turns into .sm/.ssc (x.\\u00dfc, x.\\u017fm); a dangling symbolic link in a directory (native filesystem).'
+RULE += " " + "Round 6: near-miss names with a line feed after the extension ('x.sm\\n')."
 ASSUMPTIONS = [
     "os.listdir / MemoryFS.listdir report a stable order between two calls on an unchanged directory ('first listed' is taken from the same filesystem object)",
     "CPython codecs define which bytes decode under utf-8 / cp1252 / cp932 / cp949, and what text results",
